@@ -124,7 +124,10 @@ PROTOCOL_HASH_KEY = b"vgi_rpc.protocol_hash"
 # (wire framing) and from any catalog-level data-version semantics.
 PROTOCOL_VERSION_KEY = b"vgi_rpc.protocol_version"
 
-SEMVER_REGEX = re.compile(r"^(0|[1-9]\d*)\.(0|[1-9]\d*)\.(0|[1-9]\d*)$")
+# ``\A``/``\Z`` and ``[0-9]`` rather than ``^``/``$`` and ``\d``: ``$`` also matches
+# before a trailing newline and ``\d`` matches every Unicode decimal digit (which
+# ``int()`` then accepts), so "1.0.0\n" and "1\u0661.0.0" would pass as canonical.
+SEMVER_REGEX = re.compile(r"\A(0|[1-9][0-9]*)\.(0|[1-9][0-9]*)\.(0|[1-9][0-9]*)\Z")
 
 
 def parse_version(value: str) -> tuple[int, int, int]:
